@@ -42,6 +42,8 @@ def gen_op(rng, st, have_noexec):
     paths = [HOME, D1, D2, D3, D4, D4, LINK6] + ([NOEXEC8] if have_noexec else [])
     odd = [FILE5, MISSING7] + ([NOEXEC8] if have_noexec else [])
     r = rng.random()
+    if r < 0.06:
+        return [Sym("extChdir"), rng.choice(paths)]
     if r < 0.27:
         k = rng.random()
         if k < 0.5:
@@ -108,10 +110,15 @@ def gen_history(ctx, rng, length, have_noexec):
     ops, obs = [], []
     for _ in range(length):
         op = gen_op(rng, st, have_noexec)
-        cfg, st, out = ctx.driver.call("c16.step", cfg, encode_state(st), op)
-        st = decode_state(st)
-        ops.append(op)
-        obs.append((out, list(st[:4]), list(cfg[:3])))
+        todo = [op]
+        # the shell runs BaseShell._fix_cwd after every command; always after an external chdir
+        if str(op[0]) == "extChdir" or (str(op[0]) in ("cd", "pushd", "popd") and rng.random() < 0.6):
+            todo.append([Sym("fixCwd")])
+        for op in todo:
+            cfg, st, out = ctx.driver.call("c16.step", cfg, encode_state(st), op)
+            st = decode_state(st)
+            ops.append(op)
+            obs.append((out, list(st[:4]), list(cfg[:3])))
     return cfg0, ops, obs
 
 
@@ -146,6 +153,11 @@ def impl_histories(job):
     import xonsh.dirstack as ds
     from xonsh.built_ins import XSH
     from xonsh.environ import Env
+    from xonsh.shells.base_shell import BaseShell
+
+    class ShellStub:
+        def print_color(self, *a, **k):
+            pass
 
     results = []
     for cfg, ops in histories:
@@ -188,7 +200,16 @@ def impl_histories(job):
             errbuf = io.StringIO()
             try:
                 with contextlib.redirect_stderr(errbuf), contextlib.redirect_stdout(errbuf):
-                    if name == "cd":
+                    if name == "fixCwd":
+                        BaseShell._fix_cwd(ShellStub())
+                        out = Sym("ok")
+                    elif name == "extChdir":
+                        try:
+                            os.chdir(P[op[1]])
+                        except OSError:
+                            pass
+                        out = Sym("ok")
+                    elif name == "cd":
                         a = op[1]
                         if isinstance(a, list):
                             args = [P[a[1]]] if str(a[0]) == "path" else ["-" + str(a[1])]
@@ -198,7 +219,11 @@ def impl_histories(job):
                             args = ["-P"] + args
                         out = classify(ds.cd(list(args)))
                     elif name == "pushd":
-                        out = classify(ds.pushd_fn(parg(op[1]), cd=op[2], quiet=True))
+                        # quiet and noisy pushes take different exits of pushd_fn ($PUSHD_SILENT decides for the noisy one)
+                        noisy = (len(obs) % 3) == 0
+                        env["PUSHD_SILENT"] = not noisy
+                        out = classify(ds.pushd_fn(parg(op[1]), cd=op[2], quiet=not noisy))
+                        env["PUSHD_SILENT"] = True
                     elif name == "popd":
                         out = classify(ds.popd_fn(parg(op[1]), cd=op[2], quiet=True))
                     elif name == "dirs":
@@ -273,7 +298,7 @@ def check_history(cfg, ops, model_obs, impl_obs):
         # --- the property, on the implementation alone -------------------------------------------
         if isinstance(out, Sym) and str(out).startswith("raised-"):
             fails.append((i, f"step {i} {fmt_ops([ops[i]])[0]}: internal exception {out}", None))
-        if not same:
+        if not same and str(ops[i][0]) != "extChdir":
             fails.append((i, f"after step {i} $PWD does not name the process's working directory", None))
         if isinstance(out, list) and out[0] == "err" and str(ops[i][0]) in ("cd", "pushd", "popd", "dirs"):
             if st != prev_impl_state(impl_obs, i):
